@@ -838,6 +838,9 @@ class Server:
     ) -> dict[str, Any]:
         __, n_notes, __ = count_stats(messages)
         status = 1 if messages and n_notes < len(messages) else 0
+        if self.fine_grained_manager and self.fine_grained_manager.blocking_error:
+            # Same status as the initial check (and mypy itself) gives for a blocking error.
+            status = 2
         messages = self.pretty_messages(messages, len(sources), is_tty, terminal_width)
         return {"out": "".join(s + "\n" for s in messages), "err": "", "status": status}
 
